@@ -450,10 +450,40 @@ impl Check {
         if self.replay_only.is_some() {
             return;
         }
-        for input in inputs {
-            let (log, r) = run_case(&case, input, false);
-            self.absorb(name, input, log, r);
+        let t0 = Instant::now();
+        let evals_before = self.evaluations;
+        // run in parallel (round-robin so that neighbouring heavy cases spread out),
+        // absorb in input order (deterministic)
+        let threads = self.threads.max(1).min(inputs.len().max(1));
+        let mut slots: Vec<Option<(CaseLog, CaseResult)>> = (0..inputs.len()).map(|_| None).collect();
+        std::thread::scope(|scope| {
+            let handles: Vec<_> = (0..threads)
+                .map(|t| {
+                    let case = &case;
+                    std::thread::Builder::new()
+                        .stack_size(256 << 20)
+                        .spawn_scoped(scope, move || (t..inputs.len()).step_by(threads).map(|i| (i, run_case(case, &inputs[i], false))).collect::<Vec<_>>())
+                        .expect("spawn")
+                })
+                .collect();
+            for h in handles {
+                for (i, r) in h.join().unwrap_or_default() {
+                    slots[i] = Some(r);
+                }
+            }
+        });
+        for (input, slot) in inputs.iter().zip(slots) {
+            if let Some((log, r)) = slot {
+                self.absorb(name, input, log, r);
+            }
         }
+        self.campaigns.push(Js::obj(vec![
+            ("name", Js::str(name)),
+            ("cases", Js::int(inputs.len() as i128)),
+            ("evaluations", Js::int((self.evaluations - evals_before) as i128)),
+            ("wall_s", Js::Num(format!("{:.2}", t0.elapsed().as_secs_f64()))),
+            ("enumerated", Js::Bool(true)),
+        ]));
     }
 
     /// Absorb the result of one case executed outside a proptest campaign.
